@@ -450,6 +450,34 @@ fn c02_logical_not_memory() {
     logical_body(2, false);
 }
 
+//@ id: A-4w
+//@ tier: quick
+//@ cap: 900
+//@ expect: finding F-C02-b
+//@ desc: witness for F-C02-b: a float literal in WHERE (x > 2.5): the evaluator built by ConditionEvaluatorBuilder::add_where_clause must select exactly the events whose value satisfies the comparison
+//@ functions: ConditionEvaluatorBuilder::add_where_clause, into_evaluator, ConditionEvaluator::evaluate_event
+//@ bounds: literal 2.5 (concrete), stored value any finite f64, operator >
+//@ assumes: finite stored value
+//@ stubs: std::hash::RandomState::new -> fixed keys (ConditionEvaluator::new creates an empty HashSet)
+#[kani::proof]
+#[kani::stub(std::hash::RandomState::new, crate::util::fixed_random_state)]
+#[kani::unwind(6)]
+fn c02_float_literal_witness() {
+    let v: f64 = kani::any();
+    kani::assume(v.is_finite());
+    let lit = serde_json::Value::Number(serde_json::Number::from_f64(2.5).unwrap());
+    let expr = Expr::Compare { field: "x".to_string(), op: CmdOp::Gt, value: lit };
+    let mut b = ConditionEvaluatorBuilder::new();
+    b.add_where_clause(&expr);
+    let ev = event_with(ScalarValue::Float64(v));
+    let evaluator = b.into_evaluator();
+    let selected = evaluator.evaluate_event(&ev);
+    assert!(selected == (v > 2.5), "a float literal selects exactly the matching events");
+    std::mem::forget(ev);
+    std::mem::forget(evaluator);
+    std::mem::forget(expr);
+}
+
 #[cfg(test)]
 mod replay {
     use super::*;
